@@ -157,12 +157,82 @@ let run_fuel = nat_of_int 20000
 let run_case id main files stddir =
   match FrontModel.parse_main (env_of files stddir) (bytes_of_hex main) with
   | FrontModel.POk (body, _, _, _) ->
-      (match Src.run run_fuel [] body with
+      (match Src.run run_fuel [] [] body with
        | Src.Ran (out, status, _) -> Printf.printf "run %s transpile=ok out=%s status=%s stderr=\n" id (hex_of_bytes out) (z_to_string status)
        | Src.RunUndef -> Printf.printf "run %s undefined\n" id
        | Src.RunNoFuel -> Printf.printf "run %s nofuel\n" id)
   | FrontModel.PErr -> Printf.printf "run %s transpile=err\n" id
   | FrontModel.PFuel -> Printf.printf "run %s transpile=fuel\n" id
+
+(* ---- reference semantics with standard input and an initial file store (orun cases) ---- *)
+let lines_of_text (t : string) : coq_N list list =
+  (* "a\nb\n" -> [a; b];  a final piece without newline is a line too *)
+  let parts = Stdlib.String.split_on_char '\n' t in
+  let parts = (match Stdlib.List.rev parts with "" :: r -> Stdlib.List.rev r | _ -> parts) in
+  Stdlib.List.map (fun l -> bytes_of_hex (Stdlib.String.concat "" (Stdlib.List.map (fun c -> Printf.sprintf "%02x" (Char.code c)) (Stdlib.List.of_seq (Stdlib.String.to_seq l))))) parts
+let text_of_hex h = str_of_bytes (bytes_of_hex h)
+let orun_case id main files stddir stdin prefiles =
+  let stdin_lines = if stdin = "-" then [] else lines_of_text (text_of_hex stdin) in
+  let pre = if prefiles = "-" then [] else
+      Stdlib.List.map (fun e -> match Stdlib.String.split_on_char '.' e with
+          | [n; c] -> (bytes_of_hex n, lines_of_text (text_of_hex c))
+          | [n] -> (bytes_of_hex n, [])
+          | _ -> failwith "bad prefile") (split_nonempty ',' prefiles) in
+  match FrontModel.parse_main (env_of files stddir) (bytes_of_hex main) with
+  | FrontModel.POk (body, _, _, _) ->
+      (match Src.run run_fuel pre stdin_lines body with
+       | Src.Ran (out, status, fs) ->
+           let ents = Stdlib.List.sort compare (Stdlib.List.map (fun (n, ls) ->
+               hex_of_bytes n ^ "." ^ hex_of_bytes (Stdlib.List.concat (Stdlib.List.map (fun l -> Stdlib.List.append l [bytes_of_hex "0a" |> Stdlib.List.hd]) ls))) fs) in
+           Printf.printf "orun %s transpile=ok out=%s status=%s stderr= files=%s\n" id (hex_of_bytes out) (z_to_string status) (Stdlib.String.concat "," ents)
+       | Src.RunUndef -> Printf.printf "orun %s undefined\n" id
+       | Src.RunNoFuel -> Printf.printf "orun %s nofuel\n" id)
+  | FrontModel.PErr -> Printf.printf "orun %s transpile=err\n" id
+  | FrontModel.PFuel -> Printf.printf "orun %s transpile=fuel\n" id
+
+(* ---- C08: the model of double-quoted text ---- *)
+let dq_case id env word =
+  let e = Stdlib.List.map (fun p -> match Stdlib.String.split_on_char '.' p with
+      | [n; v] -> (bytes_of_hex n, bytes_of_hex v) | [n] -> (bytes_of_hex n, []) | _ -> failwith "bad env") (split_nonempty ',' env) in
+  match Words.dq e (bytes_of_hex (if word = "-" then "" else word)) with
+  | Some w -> Printf.printf "dq %s some:%s\n" id (hex_of_bytes w)
+  | None -> Printf.printf "dq %s none\n" id
+
+(* ---- C17: the Bash-level file operations on a history ---- *)
+let fsh_case id prefiles ops =
+  let pre = if prefiles = "-" then [] else
+      Stdlib.List.map (fun e -> match Stdlib.String.split_on_char '.' e with
+          | [n; c] -> (bytes_of_hex n, bytes_of_hex c) | [n] -> (bytes_of_hex n, []) | _ -> failwith "bad prefile") (split_nonempty ',' prefiles) in
+  let opl = Stdlib.List.map (fun o -> match Stdlib.String.split_on_char '.' o with
+      | ["w"; p; c; a] -> FsSem.OWrite (bytes_of_hex p, bytes_of_hex c, a = "1")
+      | ["r"; p] -> FsSem.ORead (bytes_of_hex p)
+      | ["e"; p] -> FsSem.OExists (bytes_of_hex p)
+      | _ -> failwith "bad fs op") (split_nonempty ',' ops) in
+  let (fs, outs) = FsSem.run_sh pre opl in
+  let buf = Buffer.create 64 in
+  Stdlib.List.iter2 (fun o out -> match o, out with
+      | FsSem.ORead _, Some v -> Buffer.add_string buf ("<" ^ str_of_bytes v ^ ">\n")
+      | FsSem.OExists _, Some v -> Buffer.add_string buf (str_of_bytes v ^ "\n")
+      | _, _ -> ()) opl outs;
+  let hexs (t : string) = Stdlib.String.concat "" (Stdlib.List.map (fun c -> Printf.sprintf "%02x" (Char.code c)) (Stdlib.List.of_seq (Stdlib.String.to_seq t))) in
+  let ents = Stdlib.List.sort compare (Stdlib.List.map (fun (n, c) -> hex_of_bytes n ^ "." ^ hex_of_bytes c) fs) in
+  Printf.printf "fsh %s transpile=ok out=%s status=0 stderr= files=%s\n" id (hexs (Buffer.contents buf)) (Stdlib.String.concat "," ents)
+
+(* ---- C18: the argument vector of the first probe call of the model's script ---- *)
+let argv_case id main files stddir stdin =
+  match FrontModel.parse_main (env_of files stddir) (bytes_of_hex main) with
+  | FrontModel.POk (body, _, _, _) ->
+      (match BashConv.emit_bash body with
+       | Transpile.TOk (_, st) ->
+           let stdin_lines = if stdin = "-" then [] else lines_of_text (text_of_hex stdin) in
+           (match AppArgs.first_probe [] stdin_lines st.BashConv.b_code with
+            | Some ws ->
+                (* the probe program consumes a leading --exit=N itself *)
+                let ws = (match ws with w :: r when (let t = str_of_bytes w in Stdlib.String.length t > 7 && Stdlib.String.sub t 0 7 = "--exit=") -> r | _ -> ws) in
+                Printf.printf "argv %s argv=%d:%s\n" id (Stdlib.List.length ws) (Stdlib.String.concat "," (Stdlib.List.map hex_of_bytes ws))
+            | None -> Printf.printf "argv %s argv=none\n" id)
+       | _ -> Printf.printf "argv %s argv=noscript\n" id)
+  | _ -> Printf.printf "argv %s argv=noparse\n" id
 
 (* ---- histories of Transpile calls on one transpiler object ---- *)
 let hist_case id ops stddir progs =
@@ -196,6 +266,10 @@ let () =
       | ["parse"; id; main; files; stddir] -> parse_case id main files stddir
       | ["emit"; id; main; files; stddir] -> emit_case id main files stddir
       | ["run"; id; main; files; stddir] -> run_case id main files stddir
+      | ["dq"; id; env; word] -> dq_case id env word
+      | "fsh" :: id :: _ :: _ :: _ :: _ :: prefiles :: ops :: _ -> fsh_case id prefiles ops
+      | "argv" :: id :: main :: files :: stddir :: stdin :: _ -> argv_case id main files stddir stdin
+      | "orun" :: id :: main :: files :: stddir :: stdin :: prefiles :: _ -> orun_case id main files stddir stdin prefiles
       | ["hist"; id; ops; stddir; progs] -> hist_case id ops stddir progs
       | [] | [""] -> ()
       | k :: _ -> Printf.printf "unknown-case-kind %s\n" k
